@@ -7,7 +7,7 @@ From SP Require Import Logic.Formula Logic.Tseitin Logic.TseitinProofs.
 From SP Require Import Design.Flat Design.Layout Design.Sem.
 From SP Require Import Encode.Compile Encode.CodeSem Encode.Generic Encode.Blocks Encode.Runs
      Encode.GridLemmas Encode.CrossChunks Encode.LayoutF1 Encode.F1Kinds Encode.F1Cross
-     Encode.F1Deriv Encode.F1DerivC Encode.F1Sem.
+     Encode.F1Deriv Encode.F1DerivC Encode.F1Sem Encode.F1Sustain.
 Import ListNotations.
 Close Scope Z_scope.
 Open Scope nat_scope.
@@ -87,6 +87,21 @@ Proof.
   cbn [fv eval]. apply lit_true_pos. unfold zn. lia.
 Qed.
 
+(** the start of the group of [t] for sustain [su] lies in the same group for a multiple [m] of [su] *)
+Lemma group_same su m t : 0 < su -> 0 < m -> m mod su = 0 -> ((t / su) * su) / m = t / m.
+Proof.
+  intros Hsu Hm Hd. apply Nat.mod_divides in Hd; [|lia]. destruct Hd as (k & Hk).
+  assert (Hk0 : 0 < k) by (destruct k; [rewrite Nat.mul_0_r in Hk; lia|lia]).
+  pose proof (Nat.div_mod t m ltac:(lia)) as Et. pose proof (Nat.mod_upper_bound t m ltac:(lia)) as Hr.
+  set (q := t / m) in *. set (r := t mod m) in *.
+  assert (Emod : t mod su = r mod su).
+  { rewrite Et, Hk. replace (su * k * q + r) with (r + (k * q) * su) by lia. apply Nat.mod_add. lia. }
+  assert (E1 : (t / su) * su = t - t mod su).
+  { pose proof (Nat.div_mod t su ltac:(lia)). lia. }
+  pose proof (Nat.mod_le r su ltac:(lia)) as Hle.
+  symmetry. apply (Nat.div_unique _ m q (r - r mod su)); [lia|]. rewrite E1, Emod. lia.
+Qed.
+
 Section F1DerivSem.
 Variable fb : flat.
 Hypothesis HF1 : in_f1 fb = true.
@@ -151,17 +166,33 @@ Lemma code_factor_plain f fd :
 Proof. intros E. cbn [code_factor f_derived]. rewrite E. reflexivity. Qed.
 
 Lemma window_args_f1 q f fd w t :
-  win_width w = 1 -> window_args q (code_factor fb f fd) (dwin fd w) t = cargs q (win_deps w) t.
+  win_width w = 1 ->
+  window_args q (code_factor fb f fd) (dwin fd w) t = cargs q (win_deps w) ((t / sustain_of fb f) * sustain_of fb f).
 Proof.
   intros Hw. unfold window_args, cargs. cbn [f_sustain code_factor w_width w_deps dwin].
-  rewrite (f1_sustain fb FF f), Hw. apply map_ext. intros d.
-  rewrite Nat.div_1_r, Nat.mul_1_r. cbn [seq map].
-  change ((1 - 1 - 0) * 1) with 0. cbn [Nat.leb]. now rewrite Nat.sub_0_r.
+  rewrite Hw. apply map_ext. intros d. cbn [seq map].
+  change ((1 - 1 - 0) * sustain_of fb f) with 0. cbn [Nat.leb]. now rewrite Nat.sub_0_r.
+Qed.
+
+(** the cells of the depended-on factors are those at the start of the group *)
+Lemma cargs_group q f fd w t :
+  grouped fb q -> nth_error (fl_design fb) f = Some fd -> ff_window fd = Some w -> sact fb f = true -> t < T fb ->
+  cargs q (win_deps w) ((t / sustain_of fb f) * sustain_of fb f) = cargs q (win_deps w) t.
+Proof.
+  intros Hg Efd Ew Hs Ht. unfold cargs. apply map_ext_in. intros d Hd. f_equal.
+  pose proof (proj1 (Forall_forall _ _) (f1_deps_facts f fd w Efd Ew) d Hd) as Hds. cbv beta in Hds.
+  destruct (sact_lappl fb HF1 d t Hds) as [Hda _].
+  pose proof (f1_sustain_deps fb FF f fd w Efd Ew Hs d Hd) as Hdiv.
+  pose proof (f1_sustain_pos fb FF f) as Pf. pose proof (f1_sustain_pos fb FF d) as Pd.
+  set (t0 := (t / sustain_of fb f) * sustain_of fb f).
+  assert (Ht0 : t0 <= t) by apply (group_le fb HT).
+  rewrite <- (Hg d t0 Hda ltac:(lia)), <- (Hg d t Hda Ht). unfold t0.
+  now rewrite (group_same (sustain_of fb f) (sustain_of fb d) t Pf Pd Hdiv).
 Qed.
 
 Lemma applies_f1 f fd t : nth_error (fl_design fb) f = Some fd -> sact fb f = true -> applies (code_factor fb f fd) t = true.
 Proof.
-  intros Efd Hs. rewrite (applies_lappl fb HF1 f fd t Efd). apply (sact_lappl fb HF1 f t Hs).
+  intros Efd Hs. rewrite (applies_lappl fb HF1 HT f fd t Efd). apply (sact_lappl fb HF1 f t Hs).
 Qed.
 
 (** the shape part of [onehot]: complete rows, a level exactly where the factor has one *)
@@ -179,32 +210,34 @@ Proof. intros (_ & _ & C & _) Ht Hs. destruct (sact_lappl fb HF1 d t Hs) as [Ha 
 (** [factor_ok] of a grid factor on a well-shaped sequence: only the acceptance of
     the chosen level of a derived factor remains *)
 Lemma factor_ok_shape q f fd :
-  shape q -> nth_error (fl_design fb) f = Some fd -> sact fb f = true ->
+  shape q -> grouped fb q -> nth_error (fl_design fb) f = Some fd -> sact fb f = true ->
   (factor_ok (code_sem fb) q f (code_factor fb f fd) = true <->
    forall w, ff_window fd = Some w ->
    forall t l0, t < T fb -> get_cell q f t = Some l0 -> accepts (dwin fd w) l0 (cargs q (win_deps w) t) = true).
 Proof.
-  intros Hsh Efd Hs. pose proof Hsh as (Hq & Hr & Hc & _).
+  intros Hsh Hg Efd Hs. pose proof Hsh as (Hq & Hr & Hc & _).
   pose proof (design_lt f fd Efd) as Hf. pose proof (nlevels_design f fd Efd) as Hnl.
+  destruct (sact_lappl fb HF1 f 0 Hs) as [Ha _].
   unfold factor_ok. change (s_trials (code_sem fb)) with (T fb).
   rewrite (Hr f Hf), Nat.eqb_refl, andb_true_l, forallb_forall. split.
   - intros H w Ew t l0 Ht El0.
     specialize (H t (proj2 (in_seq _ _ _) (conj (Nat.le_0_l _) Ht))). rewrite El0 in H.
     rewrite (code_factor_derived f fd w Ew) in H. apply andb_true_iff in H. destruct H as [_ H].
     destruct (f1_window_shape f fd w Efd Ew Hs) as (H1 & _ & _).
-    now rewrite (window_args_f1 q f fd w t H1) in H.
+    now rewrite (window_args_f1 q f fd w t H1), (cargs_group q f fd w t Hg Efd Ew Hs Ht) in H.
   - intros H t Ht. apply in_seq in Ht. destruct (shape_cell q t f Hsh ltac:(lia) Hs) as (l0 & Hl0 & El0). rewrite El0.
     rewrite (applies_f1 f fd t Efd Hs). cbn [f_nlevels f_sustain code_factor].
-    rewrite (f1_sustain fb FF f), Nat.div_1_r, Nat.mul_1_r, El0. cbn [cell_eqb]. rewrite Nat.eqb_refl.
+    rewrite (Hg f t Ha ltac:(lia)), El0. cbn [cell_eqb]. rewrite Nat.eqb_refl.
     replace (l0 <? length (ff_levels fd)) with true by (symmetry; apply Nat.ltb_lt; lia).
     cbn [andb]. destruct (ff_window fd) as [w|] eqn:Ew; [|now rewrite (code_factor_plain f fd Ew)].
     destruct (f1_window_shape f fd w Efd Ew Hs) as (H1 & _ & _).
     rewrite (code_factor_derived f fd w Ew).
-    rewrite (window_args_f1 q f fd w t H1). apply (H w eq_refl t l0); [lia|exact El0].
+    rewrite (window_args_f1 q f fd w t H1), (cargs_group q f fd w t Hg Efd Ew Hs ltac:(lia)).
+    apply (H w eq_refl t l0); [lia|exact El0].
 Qed.
 
 Lemma factor_ok_f1 s q f fd :
-  onehot fb s q -> nth_error (fl_design fb) f = Some fd -> sact fb f = true ->
+  onehot fb s q -> grouped fb q -> nth_error (fl_design fb) f = Some fd -> sact fb f = true ->
   (factor_ok (code_sem fb) q f (code_factor fb f fd) = true <->
    forall w, ff_window fd = Some w ->
    forall t l0, t < T fb -> get_cell q f t = Some l0 -> accepts (dwin fd w) l0 (cargs q (win_deps w) t) = true).
@@ -379,7 +412,7 @@ Qed.
 
 (** * [factor_ok] of a derived factor with sustain 1, unfolded (implied factors, complex windows) *)
 Lemma factor_ok_impl q f fd w :
-  nth_error (fl_design fb) f = Some fd -> ff_window fd = Some w -> length (nth f q []) = T fb ->
+  nth_error (fl_design fb) f = Some fd -> ff_window fd = Some w -> sustain_of fb f = 1 -> length (nth f q []) = T fb ->
   (factor_ok (code_sem fb) q f (code_factor fb f fd) = true <->
    forall t, t < T fb ->
      match get_cell q f t with
@@ -388,11 +421,11 @@ Lemma factor_ok_impl q f fd w :
      | None => applies (code_factor fb f fd) t = false
      end).
 Proof.
-  intros Efd Ew Hr. pose proof (nlevels_design f fd Efd) as Hnl.
+  intros Efd Ew Hsu Hr. pose proof (nlevels_design f fd Efd) as Hnl.
   unfold factor_ok. change (s_trials (code_sem fb)) with (T fb).
   rewrite Hr, Nat.eqb_refl, andb_true_l, forallb_forall.
   assert (K : forall t, (t / f_sustain (code_factor fb f fd)) * f_sustain (code_factor fb f fd) = t).
-  { intros t. cbn [f_sustain code_factor]. rewrite (f1_sustain fb FF f), Nat.div_1_r. apply Nat.mul_1_r. }
+  { intros t. cbn [f_sustain code_factor]. rewrite Hsu, Nat.div_1_r. apply Nat.mul_1_r. }
   split.
   - intros H t Ht. specialize (H t (proj2 (in_seq _ _ _) (conj (Nat.le_0_l _) Ht))).
     destruct (get_cell q f t) as [l|] eqn:El.
@@ -410,12 +443,12 @@ Qed.
 
 (** on a one-hot grid the windows over the sequence and over the decoded act rows coincide *)
 Lemma onehot_window_args s q f fd w t :
-  onehot fb s q -> ff_window fd = Some w -> win_width w - 1 <= win_start w ->
+  onehot fb s q -> ff_window fd = Some w -> sustain_of fb f = 1 -> win_width w - 1 <= win_start w ->
   Forall (fun d => sact fb d = true) (win_deps w) -> t < T fb ->
   applies (code_factor fb f fd) t = true ->
   window_args q (code_factor fb f fd) (dwin fd w) t = window_args (dec_act fb s) (code_factor fb f fd) (dwin fd w) t.
 Proof.
-  intros Ho Ew W3 Hd Ht Hap. apply (impl_window_ext fb HF1 HT q (dec_act fb s) f fd w t W3 Hap Ew).
+  intros Ho Ew Hsu W3 Hd Ht Hap. apply (impl_window_ext fb HF1 HT q (dec_act fb s) f fd w t Hsu W3 Hap Ew).
   intros d t' Hin Ht'. pose proof (proj1 (Forall_forall _ _) Hd d Hin) as Hds. cbv beta in Hds.
   destruct (sact_lappl fb HF1 d t' Hds) as [Hda _].
   rewrite (dec_act_cell fb s t' d ltac:(lia) (f1_act_lt fb HF1 d Hda)).
@@ -469,13 +502,16 @@ Hypothesis Hcx : ff_complex fd = true.
 Lemma cx_w3 : win_width w - 1 <= win_start w.
 Proof. destruct (complex_facts fb HF1 f fd Efd Ha Hcx) as (w' & Ew' & _ & _ & W3 & _). congruence. Qed.
 
+Lemma cx_su : sustain_of fb f = 1.
+Proof. apply (f1_sustain_cx fb HF1 f Ha). now rewrite (is_complex_at fb f fd Efd). Qed.
+
 Lemma cx_deps : Forall (fun d => sact fb d = true) (win_deps w).
 Proof. exact (f1_deps_facts f fd w Efd Ew). Qed.
 
 Lemma cx_window_in q n : shape q -> n < T fb -> lappl fb f n = true ->
   In (window_args q (code_factor fb f fd) (dwin fd w) n) (all_args fb w).
 Proof.
-  intros Hsh Hn Hap. apply (impl_window_in fb HF1 HT q f fd w n cx_w3); [now rewrite (applies_lappl fb HF1 f fd n Efd)|exact Ew|].
+  intros Hsh Hn Hap. apply (impl_window_in fb HF1 HT q f fd w n cx_su cx_w3); [now rewrite (applies_lappl fb HF1 HT f fd n Efd)|exact Ew|].
   intros d t' Hd Ht'. apply (shape_cell q t' d Hsh ltac:(lia)). exact (proj1 (Forall_forall _ _) cx_deps d Hd).
 Qed.
 
@@ -500,8 +536,8 @@ Proof.
       pose proof (proj1 (Forall_forall _ _) Hent e He) as Hok. cbv beta in Hok.
       rewrite (eval_fvs_ds s (entry_cvars fb w n e)).
       + unfold entry_cvars. rewrite (entry_eval_c s q (win_width w) n (win_deps w) e Ho Hn cx_deps Hok).
-        rewrite (impl_window_args fb HF1 HT q f fd w n cx_w3); [reflexivity| |exact Ew].
-        now rewrite (applies_lappl fb HF1 f fd n Efd).
+        rewrite (impl_window_args fb HF1 HT q f fd w n cx_su cx_w3); [reflexivity| |exact Ew].
+        now rewrite (applies_lappl fb HF1 HT f fd n Efd).
       + eapply Forall_impl; [|exact (entry_cvars_ok fb HF1 HT w f fd n e Efd Ew Ha Hcx cx_deps Hok Hn Hap)].
         intros a [Ha' _]. exact Ha'. }
   split.
@@ -546,13 +582,34 @@ Qed.
 
 End Complex.
 
+(** * The group condition is part of [factor_ok] *)
+Lemma factors_grouped s q :
+  onehot fb s q ->
+  forallb (fun p => factor_ok (code_sem fb) q (fst p) (snd p)) (index_list (s_factors (code_sem fb))) = true ->
+  grouped fb q.
+Proof.
+  intros Ho H f t Ha Ht. pose proof Ho as (_ & _ & Hc & _).
+  destruct (is_complex fb f) eqn:Hcx; [now apply (complex_grouped fb HF1)|].
+  change (s_factors (code_sem fb))
+    with (map (fun p => code_factor fb (fst p) (snd p)) (combine (seq 0 (length (fl_design fb))) (fl_design fb))) in H.
+  rewrite (forallb_index_map_ds (code_factor fb) (factor_ok (code_sem fb) q) (fl_design fb)) in H.
+  pose proof (f1_act_lt fb HF1 f Ha) as Hf.
+  destruct (nth_error (fl_design fb) f) as [fd|] eqn:Efd; [|apply nth_error_None in Efd; unfold nf in Hf; lia].
+  specialize (H f fd Efd). unfold factor_ok in H. apply andb_true_iff in H. destruct H as [_ H].
+  rewrite forallb_forall in H. specialize (H t (proj2 (in_seq _ _ _) (conj (Nat.le_0_l _) Ht))).
+  destruct (Hc t f Ht Ha (lappl_simple fb HF1 f t Ha Hcx)) as (l & Hl & El). rewrite El in H.
+  rewrite !andb_true_iff in H. destruct H as [[_ H] _]. cbn [f_sustain code_factor] in H.
+  destruct (get_cell q f (t / sustain_of fb f * sustain_of fb f)) as [l'|]; [|discriminate].
+  cbn [cell_eqb] in H. apply Nat.eqb_eq in H. now subst.
+Qed.
+
 (** * The theorem *)
 Theorem factors_sem s q :
-  onehot fb s q ->
+  onehot fb s q -> grouped fb q ->
   ((forall d deps f, In (FDerivation d deps f) (fl_constraints fb) -> Pderiv_any fb d deps f s) <->
    forallb (fun p => factor_ok (code_sem fb) q (fst p) (snd p)) (index_list (s_factors (code_sem fb))) = true).
 Proof.
-  intros Ho. pose proof Ho as (Hq & Hr & Hc & Hb & Himp & Hnone). pose proof (onehot_shape s q Ho) as Hsh.
+  intros Ho Hg. pose proof Ho as (Hq & Hr & Hc & Hb & Himp & Hnone). pose proof (onehot_shape s q Ho) as Hsh.
   change (s_factors (code_sem fb))
     with (map (fun p => code_factor fb (fst p) (snd p)) (combine (seq 0 (length (fl_design fb))) (fl_design fb))).
   rewrite (forallb_index_map_ds (code_factor fb) (factor_ok (code_sem fb) q) (fl_design fb)).
@@ -562,8 +619,8 @@ Proof.
     + (* a factor of act_design with a complex window *)
       destruct (complex_facts fb HF1 f fd Efd Hact Hcx) as (w & Ew & _).
       assert (Hcf : is_complex fb f = true) by (rewrite (is_complex_at fb f fd Efd); exact Hcx).
-      apply (factor_ok_impl q f fd w Efd Ew (Hr f Hf)). intros t Ht.
-      rewrite (applies_lappl fb HF1 f fd t Efd). destruct (lappl fb f t) eqn:Hap.
+      apply (factor_ok_impl q f fd w Efd Ew (f1_sustain_cx fb HF1 f Hact Hcf) (Hr f Hf)). intros t Ht.
+      rewrite (applies_lappl fb HF1 HT f fd t Efd). destruct (lappl fb f t) eqn:Hap.
       * destruct (Hc t f Ht Hact Hap) as (l0 & Hl0 & El0). rewrite El0. split; [reflexivity|]. split; [exact Hl0|].
         destruct (deriv_exists_c f fd w Efd Ew Hact Hcx l0 Hl0) as (lv & d & deps & Elv & Hin & EF & Hent).
         specialize (H _ _ _ Hin). unfold Pderiv_any in H. rewrite Hcf in H. unfold Pderivc in H. rewrite EF in H.
@@ -573,7 +630,7 @@ Proof.
     + (* a grid factor *)
       assert (Hs : sact fb f = true) by (apply (sact_split fb); split; [exact Hact|now rewrite (is_complex_at fb f fd Efd)]).
       assert (Hcf : is_complex fb f = false) by (rewrite (is_complex_at fb f fd Efd); exact Hcx).
-      apply (factor_ok_f1 s q f fd Ho Efd Hs). intros w Ew t l0 Ht El0.
+      apply (factor_ok_f1 s q f fd Ho Hg Efd Hs). intros w Ew t l0 Ht El0.
       destruct (shape_cell q t f Hsh Ht Hs) as (l1 & Hl1 & El1). rewrite El0 in El1. inversion El1. subst l1.
       destruct (f1_tables_facts f fd w Efd Ew Hs) as [Hlt Hent].
       destruct (deriv_exists f fd w l0 Efd Ew Hs ltac:(lia)) as (lv & Elv & Hin).
@@ -585,22 +642,23 @@ Proof.
     + (* an implied factor *)
       destruct (implied_facts fb HF1 HT f Hf Hact) as (fd' & w & Efd' & Ew & Hdeps & W1 & W2 & W3 & Htot).
       assert (fd' = fd) by congruence. subst fd'.
-      apply (factor_ok_impl q f fd w Efd Ew (Hr f Hf)). intros t Ht.
+      pose proof (impl_sustain fb HF1 HT f Hf Hact) as Hsu.
+      apply (factor_ok_impl q f fd w Efd Ew Hsu (Hr f Hf)). intros t Ht.
       rewrite (Himp t f Ht Hf Hact). unfold cell_impl, factor_at. rewrite Efd, Ew.
       destruct (applies (code_factor fb f fd) t) eqn:Hap; [|reflexivity].
-      rewrite <- (onehot_window_args s q f fd w t Ho Ew W3 Hdeps Ht Hap).
+      rewrite <- (onehot_window_args s q f fd w t Ho Ew Hsu W3 Hdeps Ht Hap).
       destruct (find (fun l => accepts (dwin fd w) l (window_args q (code_factor fb f fd) (dwin fd w) t)) (seq 0 (nlevels fb f)))
         as [l|] eqn:El.
       * destruct (find_in_range fb HF1 HT _ _ _ El) as [A B]. now split.
       * exfalso. pose proof (pcons_cell_impl fb HF1 HT s t f (onehot_pcons fb s q Ho) Ht Hf Hact) as P.
         unfold appl, cell_impl, factor_at in P. rewrite Efd, Ew, Hap in P.
-        rewrite <- (onehot_window_args s q f fd w t Ho Ew W3 Hdeps Ht Hap), El in P.
+        rewrite <- (onehot_window_args s q f fd w t Ho Ew Hsu W3 Hdeps Ht Hap), El in P.
         destruct P as (l & _ & Q). discriminate.
   - intros H d deps f Hin. unfold Pderiv_any. destruct (is_complex fb f) eqn:Hcf.
     + destruct (derivc_formulas_eq fb HF1 HT d deps f Hin Hcf) as (fd & w & l & lv & Efd & Ew & Elv & Hf & Hcx & Hl & _ & _ & Hent & _ & EF).
       unfold Pderivc. rewrite EF. apply (pderivc_char f fd w Efd Ew Hf Hcx s q l lv Ho Hl Hent).
       intros n Hn Hap. destruct (Hc n f Hn Hf Hap) as (l0 & Hl0 & El0). rewrite El0.
-      pose proof (proj1 (factor_ok_impl q f fd w Efd Ew (Hr f (design_lt f fd Efd))) (H f fd Efd) n Hn) as Hok.
+      pose proof (proj1 (factor_ok_impl q f fd w Efd Ew (f1_sustain_cx fb HF1 f Hf Hcf) (Hr f (design_lt f fd Efd))) (H f fd Efd) n Hn) as Hok.
       rewrite El0 in Hok. destruct Hok as (_ & _ & Hacc).
       unfold is_level. cbn [cell_eqb]. destruct (l0 =? l) eqn:E.
       * apply Nat.eqb_eq in E. subst l0. rewrite accepts_level, Elv in Hacc. now symmetry.
@@ -615,7 +673,7 @@ Proof.
       * exact Hlt.
       * intros entry Hentry. exact (proj1 (Forall_forall _ _) Hent entry Hentry).
       * intros t Ht. destruct (shape_cell q t f Hsh Ht Hs) as (l0 & Hl0 & El0). rewrite El0.
-        pose proof (proj1 (factor_ok_f1 s q f fd Ho Efd Hs) (H f fd Efd) w Ew t l0 Ht El0) as Hacc.
+        pose proof (proj1 (factor_ok_f1 s q f fd Ho Hg Efd Hs) (H f fd Efd) w Ew t l0 Ht El0) as Hacc.
         unfold is_level. cbn [cell_eqb]. destruct (l0 =? l) eqn:E.
         -- apply Nat.eqb_eq in E. subst l0. rewrite accepts_level, Elv in Hacc. now symmetry.
         -- symmetry. apply not_true_is_false. intros Hex.
